@@ -213,7 +213,7 @@ func (m *c08Model) metricEvent(c *kit.Case, r *kit.Rand, tag string, node string
 
 func TestVerifC08Estimate(t *testing.T) {
 	kit.Run(t, kit.Config{Property: "C08", Unit: "estimate", Quick: 360, Thorough: 9000,
-		Rule: "histories of 60-200 events over 2-3 nodes and 3-8 pod slots on a real podAssignCache with a fake clock: informer add (pending or already bound)/update(resources, priority, conditions, phase, no-op, terminate, node change)/delete(+tombstone, repeated), Reserve/Unreserve through the Plugin, binding confirmation, re-use of a name with a new UID, NodeMetric add/update/delete with updateTime placed on and around (timestamp+interval) and the estimation deadlines, pod usages present/absent/partial, prod flags right and wrong, empty status; after every event both oracles for every node x {whole node, prod, 5 aggregation types x (no period, 3 periods), one unreported period}; distinct = (event kind, pod state before, per-node report kind, #assigned, #estimated, #reflected); non-trivial = a case in which some check saw a complete report with at least one pod still estimated and at least one pod reflected by the report on the same node"},
+		Rule: "histories of 60-200 events over 2-3 nodes and 3-8 pod slots on a real podAssignCache with a fake clock: informer add (pending or already bound)/update changing a random non-empty COMBINATION of {resources, priority, conditions, phase incl. terminate, priority/QoS labels together with a spec/conditions change}, the kubelet's completion update (phase Succeeded/Failed + Ready/ContainersReady=False in one update) at a fixed weight, node change alone or combined, no-op; finished pods linger and are followed by reports that do and do not list them; delete(+tombstone, repeated), Reserve/Unreserve through the Plugin, binding confirmation, re-use of a name with a new UID, NodeMetric add/update/delete with updateTime placed on and around (timestamp+interval) and the estimation deadlines, pod usages present/absent/partial, prod flags right and wrong, empty status; after every event both oracles for every node x {whole node, prod, 5 aggregation types x (no period, 3 periods), one unreported period}; distinct = (event kind, pod state before, per-node report kind, #assigned, #estimated, #reflected); non-trivial = a case in which some check saw a complete report with at least one pod still estimated and at least one pod reflected by the report on the same node"},
 		func(c *kit.Case) {
 			r := c.R
 			or := r.Fork() // oracle-side choices (fresh cache feed order) do not perturb the history
